@@ -26,6 +26,7 @@ func c10(c *Ctx) {
 	c10writer(c)
 	c10caller(c)
 	c10panicFirst(c)
+	c10finish(c)
 	c10entries(c)
 	workersClamp(c, "C10.R7", "core/mr")
 	// R9: at most the configured number of mappers run at once — the semaphore is sized from the configured count
@@ -884,4 +885,76 @@ func c10panicFirst(c *Ctx) {
 	if outputs == 0 {
 		c.R.Undecided(rule, mrPkg+".mapReduceWithPanicChan#output-case", "the output case of the final select is recognised", "no path took it")
 	}
+}
+
+// c10finish (R12, round 9): Finish and FinishVoid are the pipeline too. On every path that has functions to run they
+// hand them to the package's own pipeline (MapReduceVoid / ForEach) exactly once — the code whose panic capture,
+// cancellation and termination R1–R11 decide — with one worker per function (WithWorkers(len(fns)): functions that wait
+// for one another must all be running), and they call nothing that recovers on its own (core/threading, core/rescue):
+// a helper that runs the functions under RunSafe logs a user panic instead of re-raising it; a cap on the workers lets
+// the first functions wait for ever for one that never starts.
+func c10finish(c *Ctx) {
+	rule := "C10.R12"
+	n := 0
+	for _, name := range []string{"Finish", "FinishVoid"} {
+		f := c.fn(rule, mrPkg, name)
+		if f == nil {
+			continue
+		}
+		n++
+		ps := c.paths(rule, f, px.Config{})
+		fnsP := f.Params[0]
+		c.forall(rule, mrPkg+"."+name, "a non-empty function list is run by the package's own pipeline exactly once, with len(fns) workers, and nothing on the way recovers panics on its own", f, ps, func(p *px.Path) (bool, string) {
+			if p.Exit != px.ExitReturn {
+				return true, ""
+			}
+			pipeline, workers := 0, 0
+			for i := range p.Events {
+				e := &p.Events[i]
+				if e.Kind != px.EvCall || e.Call.Static == nil {
+					continue
+				}
+				callee := e.Call.Static
+				if o := callee.Origin(); o != nil {
+					callee = o // the generic function behind an instantiation
+				}
+				if callee.Pkg == nil {
+					continue
+				}
+				pkgPath := strings.TrimPrefix(callee.Pkg.Pkg.Path(), mod)
+				switch {
+				case pkgPath == "core/threading" || pkgPath == "core/rescue":
+					return false, "calls " + funcDisplay(callee) + ": the functions run under a recover of their own, a user panic is swallowed instead of re-raised"
+				case pkgPath == mrPkg && (strings.HasPrefix(callee.Name(), "MapReduce") || strings.HasPrefix(callee.Name(), "ForEach")):
+					pipeline++
+				case pkgPath == mrPkg && callee.Name() == "WithWorkers":
+					a := e.Call.Args[0].Strip(true)
+					if a != nil && a.Kind == px.KCall && a.Call != nil && a.Call.Builtin == "len" && len(a.Call.Args) == 1 && isParam(a.Call.Args[0], fnsP) {
+						workers++
+					} else {
+						return false, "the worker count is not len(fns): with fewer workers than functions, functions that wait for a later one never finish"
+					}
+				}
+			}
+			empty := false
+			for _, b := range p.All(px.KindIs(px.EvBranch)) {
+				if b.Taken && b.Cond != nil {
+					cn := b.Cond.Strip(true)
+					if cn.Kind == px.KBinOp && cn.Op == token.EQL {
+						if k, ok := constInt(p, cn.Y); ok && k == 0 {
+							empty = true
+						}
+					}
+				}
+			}
+			if empty && pipeline == 0 {
+				return true, ""
+			}
+			if pipeline != 1 || workers != 1 {
+				return false, fmt.Sprintf("pipeline entered ×%d with WithWorkers(len(fns)) ×%d", pipeline, workers)
+			}
+			return true, ""
+		})
+	}
+	c.R.Min(rule, 2, "Finish, FinishVoid")
 }
